@@ -23,6 +23,12 @@ BR_INLINE = {"none": "%s", "span": "<span>%s</span>", "i": "<i>%s</i>", "b-span"
 BR_PATTERN = ["<br/>x", "<br/><br/>x", "x<br/>", "x<br/><br/>", "<br/><br/><br/>", "a<br/><br/>b", "<br/>x<br/><br/>", "<br/><br/><br/>x<br/>y"]
 BR_AROUND = {"alone": "%s", "between": "intro\n\n%s\noutro\n"}
 
+# malformed HTML lists: content that is not an <li> at every position of the list (fix_item_lists wraps it)
+STRAY = ["text", "<br/>", "text<br/>more", "<br/>text", "<b>bold</b>", "<div>d</div>", "<br/><br/>", "<span><br/></span>x", "[[Link]]", "<ref>r</ref>"]
+STRAY_LIST = {"ul": "<ul>%s</ul>\n", "ol": "<ol>%s</ol>\n", "ul-in-cell": "{|\n| <ul>%s</ul>\n|}\n", "nested": "<ul><li>o<ul>%s</ul></li></ul>\n"}
+STRAY_POS = {"first": "%s<li>a</li><li>b</li>", "between": "<li>a</li>%s<li>b</li>", "last": "<li>a</li><li>b</li>%s", "only": "%s",
+             "between-and-last": "<li>a</li>%s<li>b</li>%s"}
+
 # deep nesting (C01's nest/pump families reach these depths) inside the shapes whose repair copies or moves whole subtrees
 DEEP_SHAPES = {"plain": "%s\n", "indent-table": ":{|\n|a||%s\n|}\n", "pre-list": " a <ul><li>%s</li></ul>\n", "cell": "{|\n| %s\n|}\n",
                "dl-gallery": ";t\n:<gallery>\nFile:A.png|%s\n</gallery>\n", "ref": "a<ref>%s</ref>\n",
@@ -167,6 +173,7 @@ class CleanExplore(InputProp):
         except ImportError:
             pass
         fams.append(Product(sorted(BR_AROUND), sorted(BR_OUTER), sorted(BR_INLINE), BR_PATTERN, name="brwrap"))
+        fams.append(Product(sorted(STRAY_LIST), sorted(STRAY_POS), STRAY, name="listwrap"))
         fams.append(Product(sorted(DEEP_SHAPES), sorted(DEEP_WRAP), DEEP_DEPTHS, name="deep"))
         # cleaner histories: ONE TreeCleaner (as the PDF writer keeps one) cleans article A completely, then article B pass by pass
         hsub = clean_names[::10] if tier == "quick" else clean_names[::3]
@@ -191,6 +198,9 @@ class CleanExplore(InputProp):
             return self.ctx[c[0]] % c[1]
         if fam == "clean-ctx":
             return self.ctx[c[1]] % self.clean[c[0]]
+        if fam == "listwrap":
+            inner = STRAY_POS[c[1]]
+            return STRAY_LIST[c[0]] % (inner.replace("%s", c[2]))
         if fam.startswith("history"):
             return self.clean[c[1]]
         if fam == "deep":
